@@ -3,6 +3,7 @@ from vlib.term import z, to_coq
 
 ID = 'C04'
 PROP_FILE = 'Props/C04.v'
+EXTRA_PROP_FILES = ['Props/C04Src.v']     # K1 source tie (tools/props/src_translate.py), see docs/reports/SRC.md
 EVAL_FILES = ['Model/PubCases.v', 'Model/PubGetters.v', 'Oracle/C04Oracle.v']
 CRATES = ['c04']
 MODES = ['debug', 'release']
